@@ -18,7 +18,9 @@ import (
 	"strings"
 	"sync"
 
+	"github.com/aws/aws-sdk-go-v2/aws"
 	"github.com/aws/aws-sdk-go-v2/service/s3"
+	"github.com/aws/aws-sdk-go-v2/service/s3/types"
 	"github.com/aws/smithy-go"
 	"github.com/twmb/franz-go/pkg/kmsg"
 )
@@ -51,6 +53,13 @@ type c32S3 struct {
 
 func c32NewS3() *c32S3 {
 	return &c32S3{objects: map[string]*c32Obj{}, uploads: map[string]*c32Upload{}}
+}
+
+// dropUploads forgets every in-progress multipart upload (aborted / expired on the S3 side).
+func (f *c32S3) dropUploads() {
+	f.mu.Lock()
+	f.uploads = map[string]*c32Upload{}
+	f.mu.Unlock()
 }
 
 func (f *c32S3) failNext(op string) {
@@ -151,7 +160,7 @@ func (f *c32S3) CompleteMultipartUpload(ctx context.Context, p *s3.CompleteMulti
 	}
 	u, ok := f.uploads[*p.UploadId]
 	if !ok || u.key != *p.Key {
-		return nil, c32APIErr("NoSuchUpload", "The specified upload does not exist")
+		return nil, &types.NoSuchUpload{Message: aws.String("The specified upload does not exist")}
 	}
 	if p.MultipartUpload == nil || len(p.MultipartUpload.Parts) == 0 {
 		return nil, c32APIErr("MalformedXML", "You must specify at least one part")
